@@ -190,7 +190,67 @@ func (x *Exec) qual(p *types.Package) string {
 }
 
 func (x *Exec) typeName(t types.Type) string {
-	return sanitize(types.TypeString(t, x.qual))
+	return sanitize(normTypeParams(types.TypeString(t, x.qual)))
+}
+
+// normTypeParams rewrites "RingBuffer[T any]" / "SafeMap[K comparable, V any]"
+// (the declared generic type) to "RingBuffer[T]" / "SafeMap[K, V]" so that it
+// names the same heap arrays as the receiver type inside method bodies.
+func normTypeParams(s string) string {
+	var sb strings.Builder
+	i := 0
+	for i < len(s) {
+		if s[i] != '[' {
+			sb.WriteByte(s[i])
+			i++
+			continue
+		}
+		// find matching ]
+		d, j := 0, i
+		for ; j < len(s); j++ {
+			if s[j] == '[' {
+				d++
+			} else if s[j] == ']' {
+				d--
+				if d == 0 {
+					break
+				}
+			}
+		}
+		if j >= len(s) {
+			sb.WriteString(s[i:])
+			break
+		}
+		inner := s[i+1 : j]
+		parts := splitTopComma(inner)
+		isParams := len(parts) > 0
+		for _, p := range parts {
+			f := strings.Fields(p)
+			if len(f) != 2 || !isIdentStr(f[0]) {
+				isParams = false
+			}
+		}
+		if isParams {
+			var names []string
+			for _, p := range parts {
+				names = append(names, strings.Fields(p)[0])
+			}
+			sb.WriteString("[" + strings.Join(names, ", ") + "]")
+		} else {
+			sb.WriteString("[" + normTypeParams(inner) + "]")
+		}
+		i = j + 1
+	}
+	return sb.String()
+}
+
+func isIdentStr(s string) bool {
+	for i := 0; i < len(s); i++ {
+		if !isIdent(s[i]) {
+			return false
+		}
+	}
+	return len(s) > 0
 }
 
 func isRepoPkg(p *types.Package) bool {
